@@ -50,6 +50,9 @@ func ValueOf(value any) Value { //nolint: gocyclo
 		return mapSliceValue{slice: v}
 	case Value:
 		return v
+	case Range:
+		// (a range is a sequence to loop over or to filter, not a structure whose Go methods are properties)
+		return wrapperValue{value}
 	}
 	switch reflect.TypeOf(value).Kind() {
 	case reflect.Ptr:
